@@ -200,3 +200,13 @@ package wire
 // ---------------------------------------------------------------- C06 / C07: a new wire connection
 // starts with empty routing tables of its own (nothing inherited from an earlier connection), a
 // request-id generator at its start value and buffered inboxes.
+
+// Closing the wire connection announces it (Closed() fires) BEFORE the transport is closed, so
+// that recovery starts at once and does not wait for a transport whose Close is slow when the
+// peer is silent.
+//@ func (*ClientConn).Close
+//@   props C15 C10
+//@   ghostvar cancelled bool = false
+//@   after call dynamic field cancel: cancelled = true
+//@   assert call EncodingTransport).Close: cancelled
+//@   ensures cancelled
